@@ -16,3 +16,19 @@ def rewrite_upload_imports(dst):
         t2 = t2.replace('\t"net/http"\n', '\thttp "%svhttp"\n' % SHIM)
         if t2 != t:
             p.write_text(t2)
+
+
+def rewrite_upload_fault(dst):
+    """C05, uploader half: as rewrite_upload_imports, plus "crypto/rand" of internal/upload (computeRandom) goes
+    through the fault-point shim vrand, and "sync" (the parse cache's mutex) through vsyncu, which turns a lock
+    attempt that can never succeed into an observed hang (import lines only)."""
+    rewrite_upload_imports(dst)
+    d = dst / "internal" / "upload"
+    for p in d.glob("*.go"):
+        if p.name.endswith("_test.go") or p.name.startswith("zz_verif_"):
+            continue
+        t = p.read_text()
+        t2 = t.replace('\t"crypto/rand"\n', '\trand "%svrand"\n' % SHIM)
+        t2 = t2.replace('\t"sync"\n', '\tsync "%svsyncu"\n' % SHIM)
+        if t2 != t:
+            p.write_text(t2)
